@@ -1,2 +1,26 @@
 (* C07 (scheduler part) — the property theorems about the scheduler model, and nothing else. *)
 From VF Require Import Sched.Proofs.
+Open Scope Z_scope.
+
+(* selector_linear: every Execute event calls exactly one of Select /
+   Abandoned on the initial size class selector it was given (this is the
+   count Spec.c07_exec checks on the implementation's ghost log) ... *)
+Theorem selector_linear : forall s c a t h,
+  List.length (filter (fun x => match x with OGhost GSelect | OGhost GSelAbandoned => true | _ => false end)
+                      (snd (step s (EStartExecute c a t, h)))) = 1%nat.
+Proof. exact selector_linear_step. Qed.
+Print Assumptions selector_linear.
+
+Theorem selector_linear_c07_exec : forall s c a t h,
+  c07_exec (snd (step s (EStartExecute c a t, h))) = ""%string.
+Proof. exact c07_exec_ok. Qed.
+Print Assumptions selector_linear_c07_exec.
+
+(* ... and no other event (clean-up of timed-out workers and operations,
+   completions, kills, ...) ever calls a selector. *)
+Theorem selector_only_at_execute : forall s e h,
+  (forall c a t, e <> EStartExecute c a t) ->
+  filter (fun x => match x with OGhost GSelect | OGhost GSelAbandoned => true | _ => false end)
+         (snd (step s (e, h))) = [].
+Proof. exact selector_only_at_execute. Qed.
+Print Assumptions selector_only_at_execute.
